@@ -14,7 +14,7 @@ What is enumerated (no sampling anywhere):
   * ALL call sequences on ONE cursor of one connection:
         quick    : length <= 2 over all 14 templates and a reduced value set
         thorough : length <= 2 over all 14 templates and the full slot domains, and length 3 over
-                   all 14 templates with a reduced value set.
+                   all 14 templates with a middle value set.
 Oracle: a second, fresh connection; the reference binder below replaces every placeholder that is
 outside a string literal by a correctly quoted SQL literal and executes the literal statement with
 NO parameters on a fresh cursor. After every call both sides must be in the same class (ok/error),
@@ -142,7 +142,7 @@ FULL = {
 FULL["any"] = [1, 0, -1, 2 ** 31, 2 ** 63 - 1, 0.5, -0.0, 1e308, NAN, INF,
                "a", "", "it's", "?", "a'; DROP TABLE t; --", True, False, None]
 
-# reduced value set (quick tier, and the length-3 layer of the thorough tier)
+# reduced value set (quick tier)
 REDUCED = {
     "int": [1, 0, 2 ** 31],
     "str": ["a", "it's", "?"],
@@ -150,6 +150,15 @@ REDUCED = {
     "bool": [True, None],
     "any": [1, 0.5, "it's", "a'; DROP TABLE t; --", True, None],
 }
+# middle value set: the length-3 layer of the thorough tier
+MIDDLE = {
+    "int": [1, 0, -1],
+    "str": ["a", "it's", "?"],
+    "float": [0.5, 1e308, None],
+    "bool": [True, False, None],
+    "any": [1, -1, 0.5, "it's", "a'; DROP TABLE t; --", True, None],
+}
+
 SCHEMA = ["CREATE TABLE t (n BIGINT, s VARCHAR(50), x DOUBLE, b BOOLEAN)"]
 INIT = [
     "INSERT INTO t (n, s, x, b) VALUES (1, 'a', 0.5, TRUE)",
@@ -690,9 +699,9 @@ def main_check(tier):
         bounds = ("all call sequences of length <= 2 over all %d templates (a superset of DESIGN's six) with the reduced value set"
                   % len(TEMPLATES))
     else:
-        layers = [(pairs_for(indexed, FULL), 2), (pairs_for(indexed, REDUCED), 3)]
+        layers = [(pairs_for(indexed, FULL), 2), (pairs_for(indexed, MIDDLE), 3)]
         bounds = ("all call sequences of length <= 2 over all %d templates with the full slot domains, and all of length <= 3 "
-                  "over all templates with the reduced value set" % len(TEMPLATES))
+                  "over all templates with the middle value set (int {1,0,-1}, str {a, it's, ?}, float {0.5,1e308,None}, bool {True,False,None})" % len(TEMPLATES))
 
     import multiprocessing as mp
     ctx = mp.get_context("fork")  # the parent never imports the extension
